@@ -149,6 +149,8 @@ class History:
             self._op_step()
         elif kind == "probe":
             self._op_probe(*op[1:])
+        elif kind == "rush":
+            self._op_rush(*op[1:])
         elif kind == "retain":
             self._op_retain()
         elif kind == "branch":
@@ -283,6 +285,23 @@ class History:
         i = self.build_instruction(kind, vclass, vsel, tclass, tsel, csel)
         self.scripted[gen % len(self.scripted)].queue.append(i)
         self.stats["instructions_queued"] += 1
+
+    def _op_rush(self, tsel: int, csel: int, k: int) -> None:
+        """send up to k vehicles that are idle or parked to one (station, plug) in the same step"""
+        from nrel.hive.dispatcher.instruction import instructions as I
+
+        sim = self.sim
+        sids = sorted(sim.stations.keys())
+        if not sids:
+            return
+        s = sim.stations[sids[tsel % len(sids)]]
+        plugs = sorted(s.state.keys())
+        c = plugs[csel % len(plugs)]
+        cand = [v for v in sorted(sim.vehicles.values(), key=lambda x: x.id)
+                if sname(v) in ("Idle", "ReserveBase", "Repositioning") and self.env.mechatronics[v.mechatronics_id].valid_charger(s.state[c].charger)]
+        for v in cand[: max(1, k)]:
+            self.scripted[0].queue.append(I.DispatchStationInstruction(v.id, s.id, c))
+            self.stats["instructions_queued"] += 1
 
     def _op_step(self) -> None:
         from nrel.hive.app import hive_cosim
